@@ -47,6 +47,7 @@ type PResult struct {
 	ModelImp    string
 	ModelRuns   []ModelRun
 	Unsupported bool
+	Cert        map[string]string // certificates the driver evaluated on the model's output (req, type, …)
 	Unmodelled  int
 	Dis         []Disagreement
 }
@@ -190,6 +191,14 @@ func RunPipeline(cases []*PCase) ([]*PResult, *Batch, error) {
 		}
 		if s := a.First("IMPORTS"); s != nil && len(s) > 1 {
 			r.ModelImp = s[1]
+		}
+		if l := a.First("CERT"); l != nil && len(l) > 1 {
+			r.Cert = map[string]string{}
+			for _, kv := range strings.Fields(l[1]) {
+				if i := strings.IndexByte(kv, '='); i > 0 {
+					r.Cert[kv[:i]] = kv[i+1:]
+				}
+			}
 		}
 		for _, l := range a.All("RUN") {
 			if len(l) >= 5 {
